@@ -484,10 +484,19 @@ def limit_power(a: Limit, b: Limit, conds: Conditions) -> Limit:
             return Limit(None)
     elif conds.is_positive(a.e):
         # Base is positive
-        if b.e == POS_INF:
-            return Limit(POS_INF, asymp=exp_asymp(b.asymp))
-        elif b.e == NEG_INF:
-            return Limit(Const(0), asymp=exp_asymp(b.asymp), side=FROM_ABOVE)
+        if b.e == POS_INF or b.e == NEG_INF:
+            # c ^ oo is oo for c > 1 and 0 for c < 1 (the other way round for c ^ -oo),
+            # 1 ^ oo is an indeterminate form
+            if conds.is_greater(a.e, Const(1)):
+                grows = (b.e == POS_INF)
+            elif conds.is_less(a.e, Const(1)):
+                grows = (b.e == NEG_INF)
+            else:
+                return Limit(None)
+            if grows:
+                return Limit(POS_INF, asymp=exp_asymp(b.asymp))
+            else:
+                return Limit(Const(0), asymp=exp_asymp(b.asymp), side=FROM_ABOVE)
         else:
             # TODO: try to figure out asymp and side in more cases
             return Limit(normalize(a.e ^ b.e, conds))
@@ -577,7 +586,7 @@ def limit_of_expr(e: Expr, var_name: str, conds: Conditions) -> Limit:
         else:
             l1 = limit_of_expr(e.args[0], var_name, conds)
             l2 = limit_of_expr(e.args[1], var_name, conds)
-            if l1.e.is_const() and expr.eval_expr(l1.e) == 1 and l2.e == POS_INF:
+            if l1.e.is_const() and expr.eval_expr(l1.e) == 1 and l2.e in (POS_INF, NEG_INF):
                 x = limit_of_expr(e.args[1] * expr.Fun('log', e.args[0]), var_name, conds)
                 if x.e == None:
                     return Limit(None)
